@@ -155,9 +155,9 @@ def crate_inliner(bods):
     appearing in the candidate's signature. Ambiguous or foreign callees stay uninterpreted."""
     by_last = {}
     for name, b in bods.items():
-        if re.search(r"#\d+$", name) or "{closure" in name.rsplit("::", 1)[-1]:
+        if "{closure" in name.rsplit("::", 1)[-1]:
             continue
-        by_last.setdefault(name.rsplit("::", 1)[-1], []).append(b)
+        by_last.setdefault(re.sub(r"#\d+$", "", name).rsplit("::", 1)[-1], []).append(b)
 
     def resolve(callee, argvals):
         c = re.sub(r"::<[^>]*(?:<[^>]*>[^>]*)*>", "", callee)  # drop generic args
